@@ -102,6 +102,11 @@ def run(plan):
             nreq = 4       # upper bound; unused directives are simply dropped
         net = [{} for _ in range(nreq + 1)]
         net[which % nreq] = {"app": spec}
+        if plan.get("answered_twice"):
+            # the unit is busy, misses the 2 s window, and then answers the original and the re-sent request back to
+            # back: two well-formed answers of the same kind in one exchange
+            net = [{} for _ in range(which % nreq)] + [{"hold": "next"}, {}] + [{} for _ in range(nreq)]
+            w.fire("request_answered_twice_in_one_exchange")
         op = {"op": opname, "net": net}
         if opname == "apply":
             # property settings changed too, so that apply() makes its second (property write) exchange
@@ -305,6 +310,14 @@ def space(tier):
                 "app": {"base": "honest", "edit": [["corrupt", pos, rng.randrange(1, 256), rng.random() < 0.5]],
                         "place": "many_then_good", "n": rng.choice([7, 8, 9, 15, 16, 17, 40])}}
     sp.add("bursts_of_rejected_frames", 600 if tier == "quick" else 60_000, burst_fn)
+
+    def twice_fn(j, rng):
+        opname = OPS[j % len(OPS)]
+        p = {"config": cfg(3), "target": opname, "which": (j // len(OPS)) % NREQ[opname], "app": {}, "answered_twice": True}
+        if rng.random() < 0.5:
+            p["caps_profile"] = [[cid, v.hex()] for cid, v in appfault.FULL_CAPS[:rng.randint(3, len(appfault.FULL_CAPS))]]
+        return p
+    sp.add("request_answered_twice", 120 if tier == "quick" else 6000, twice_fn)
 
     PV = {0x0009: ["00", "01", "19", "32", "64", "ff"], 0x000A: ["00", "01", "19", "32", "64", "ff"],
           0x0018: ["00", "01", "02", "ff"], 0x0039: ["00", "01", "02"], 0x0042: ["00", "01", "02", "03", "ff"],
